@@ -359,6 +359,8 @@ def unpack_leaf(fmt, leaf, w):
         raise Unsupported("misaligned unpack of int32 array bytes")
     if kind == 'eof':
         raise _struct.error("unpack requires a buffer of %d bytes" % w)
+    if kind == 'i32be' and w == 4:
+        return ('badint', leaf)      # byte-swapped array bytes: not the element's value
     if kind == 'file' and w == 4 and fmt == '<i':
         return ('badint', leaf)      # same provenance as np.frombuffer(..., int32) of these abstract file bytes
     raise Unsupported("unpack of %s bytes" % kind)
